@@ -280,7 +280,19 @@ func genC18(r *Run) {
 		for k := r.Rng.Intn(6); k >= 0; k-- {
 			s := frameSpec{ihl: 5, proto: 17, version: 4, sip: r.Bytes(4), dip: bip[len(bip)-4:], sport: r.Rng.Intn(65536), dport: bport, truncateTo: -1}
 			s.payload = r.Bytes(r.Pick(0, 1, 7, 8, 9, 240, 300, 600))
-			switch r.Rng.Intn(14) {
+			nmut := 1
+			if r.Rng.Intn(3) == 0 {
+				nmut = 2 // two deviations at once (options + short total length, padding + other port, ...)
+			}
+			for ; nmut > 0; nmut-- {
+			switch r.Rng.Intn(16) {
+			case 11, 12: // IP options and a total length around the header length (below it, at it, just above it)
+				s.ihl = 6 + r.Rng.Intn(10)
+				tl := r.Pick(0, 19, 20, 21, s.ihl*4-4, s.ihl*4-1, s.ihl*4, s.ihl*4+1, s.ihl*4+7, s.ihl*4+8, s.ihl*4+9)
+				s.tlenDelta = tl - (s.ihl*4 + 8 + len(s.payload))
+				if r.Rng.Intn(2) == 0 {
+					s.truncateTo = maxInt(tl, 0) // the frame ends where the total length says
+				}
 			case 0:
 				s.ihl = 6 + r.Rng.Intn(10)
 			case 1:
@@ -304,6 +316,7 @@ func genC18(r *Run) {
 			case 10:
 				s.trailing = 30
 				s.tlenDelta = -len(s.payload) - 1 - r.Rng.Intn(8) // total length leaves < 8 octets of IP payload (F1)
+			}
 			}
 			f := buildFrame(s)
 			if r.Rng.Intn(40) == 0 {
